@@ -2737,6 +2737,31 @@ func (s *ImmuStore) ExportTx(txID uint64, allowPrecommitted bool, skipIntegrityC
 
 	var isValueTruncated bool
 
+	// Either all the values are sent or none. An empty value takes no space in the value log
+	// and is read successfully whether or not the values of the transaction were truncated,
+	// so it is sent along with the other ones: with the values or by digest. When empty values
+	// come first, the first non-empty value tells how the transaction is going to be exported
+	if len(tx.Entries()) > 0 && tx.Entries()[0].vLen == 0 {
+		for _, e := range tx.Entries() {
+			if e.vLen == 0 {
+				continue
+			}
+
+			err = s.validateValueLen(e.vLen)
+			if err != nil {
+				return nil, err
+			}
+
+			_, err = s.readValueAt(make([]byte, e.vLen), e.vOff, e.hVal, skipIntegrityCheck)
+			if err != nil && !errors.Is(err, io.EOF) {
+				return nil, err
+			}
+
+			isValueTruncated = err != nil
+			break
+		}
+	}
+
 	for i, e := range tx.Entries() {
 		var blen [lszSize]byte
 
@@ -2794,7 +2819,7 @@ func (s *ImmuStore) ExportTx(txID uint64, allowPrecommitted bool, skipIntegrityC
 			return nil, err
 		}
 
-		if err == nil {
+		if err == nil && (e.vLen > 0 || !isValueTruncated) {
 			// currently, either all the values are sent or none
 			if isValueTruncated {
 				s._valBsMux.Unlock()
@@ -2818,6 +2843,7 @@ func (s *ImmuStore) ExportTx(txID uint64, allowPrecommitted bool, skipIntegrityC
 		} else {
 			// error is eof, the value has been truncated,
 			// value is not available but digest is written instead
+			// (so is the digest of an empty value of a truncated transaction)
 
 			// currently, either all the values are sent or none
 			if !isValueTruncated && i > 0 {
